@@ -23,7 +23,11 @@ Elems == Leafs \cup Nested
 Keys == {"a", "b"}
 BadVals == {S("x"), D([a |-> S("x")]), L(<<S("x")>>), D(("#1" :> S("i1"))), L(<<D(("#1" :> S("i1")))>>),
             D(("a.b" :> S("i1"))), L(<<D(("a.b" :> S("i1")))>>), D([a |-> D(("a.b" :> S("i1")))]),
-            D(("a" :> S("i1")) @@ ("#n" :> S("n")))}
+            D(("a" :> S("i1")) @@ ("#n" :> S("n"))),
+            \* forbidden item BEFORE / AFTER acceptable siblings, and below a list that already holds scalars
+            L(<<S("x"), S("i1")>>), L(<<S("i1"), S("x")>>), L(<<D(("#1" :> S("i1"))), S("i1")>>),
+            D([a |-> S("x"), b |-> S("i1")]), D([a |-> S("i1"), b |-> S("x")]),
+            D([a |-> L(<<S("x")>>)]), D([a |-> L(<<D(("#1" :> S("i1")))>>)]), D([b |-> L(<<S("i1"), S("x")>>)])}
 ArgVals == IF Tier = "forbid" THEN BadVals \cup {S("i1"), D([a |-> S("i1")]), L(<<S("i1")>>)}
            ELSE {S("i1"), S("T"), S("n"), S("f1"), EmptyD, D([a |-> S("T")]), D([b |-> L(<<S("i1")>>)]),
                  L(<<>>), L(<<S("T")>>), L(<<S("i1"), D([a |-> S("n")])>>)}
